@@ -62,6 +62,15 @@ CLAIMED["C14"] = ("other", "Mixed: (proof) specifiers - 13 Boolean-algebra laws 
                   "returned objects by the canonical-uniqueness lemma whose head/tail/base steps are machine-checked; a & ~a empty and a | ~a universal via witness points; markers - 10 laws up to equivalence as corollaries of the C02 operator law; "
                   "(bounded) law sweep on real objects.", "5 C14", "C01/C05 contracts; list-induction principle for canonical uniqueness; C02 operator law (atom layer bounded); dense order",
                   "corollaries of operator contracts + machine-checked lemmas (z3), bounded law sweep")
+CLAIMED["C06"] = ("other", "Mixed: (proof, structured versions) every clause form RangeSpecifier._simplified_form/__str__ can emit ('', one-sided bounds, ==V, ~=V, explicit pair) and the !=V form of UnionSpecifier._simplified_form "
+                  "denote the object's own interval, str() raises nothing (index safety of the padded lists included), and the parsing side (_release_series, _from_pkg_specifier) builds exactly the bounds PEP 440 assigns to ~=V, ==P.*, !=P.*; "
+                  "the open finding D3 is the refuted obligation 'upper bound of a ~= rendering has no post-release'; (bounded) text round trip through the real parser over the version-text grammar, the boundary-shape catalogue and operator results; "
+                  "the exact bounds of a rendered !=X.* are bounded only.", "5 C06", "A-VER, A-PKG-PARSE; wildcard-exclusion bounds, Union.__str__ and the parse folds bounded; finding D3",
+                  "contract-based deductive verification over structured versions (T-VER) + bounded text round trip")
+CLAIMED["C04"] = ("other", "Mixed: (proof) leaf translation: _from_pkg_specifier returns, for each of >,>=,<,<=,==,!=,~=,==P.*,!=P.* (with/without epoch), exactly the interval(s) PEP 440 assigns (structured versions), === gives ArbitrarySpecifier; the algebra between "
+                  "leaves is C01/C05; (bounded) membership of final releases against packaging.SpecifierSet.contains for leaves and expression trees of depth <= 3, contains() path (through str()), === leaves raise ValueError or give the right set.",
+                  "5 C04", "A-VER, A-PKG-PARSE, A-PKG-CONTAINS (bounded); C01/C05/C06 contracts; finding D3 (contains() goes through the ~= rendering)",
+                  "contract-based deductive verification of the leaf translation (T-VER) + bounded comparison with packaging")
 CLAIMED["C07"] = ("other", "Mixed: (proof) MultiMarker.__str__ / MarkerUnion.__str__ produce a join whose operands parse at the right precedence (no unparenthesised or-join or <empty>/'' token inside an and-join) and mean the children, "
                   "for all compounds in normal form; (bounded) str() of every parse/&/|/only/exclude result of the marker sweep is re-parsed by parse_marker and packaging.Marker and re-evaluated on the environment grid; "
                   "<empty>/'' round trip and absence of <empty> inside larger markers checked there.", "5 C07", "A-PKG-PARSE (precedence); str() contract of children assumed recursively; atom renderings bounded; D14 finding",
